@@ -36,9 +36,10 @@ def run(chk, rng, quick):
                     rolls.append(np.asarray(out, dtype=np.float64))
                 return out
             jax.random.uniform = uniform
-            gp = lc._patch_greedy(name, calls)
+            mods_ref = {}
+            gp = lc._patch_greedy(name, calls, online=lambda: mods_ref["q"])
             try:
-                res = tr.run(name, script, total, warm=warm, seed=int(rng.integers(0, 1000)), extra={"uf": 1, "tuf": 3})
+                res = tr.run(name, script, total, warm=warm, seed=int(rng.integers(0, 1000)), extra={"uf": 1, "tuf": int(rng.choice([3, 7])), "mods_ref": mods_ref})
             finally:
                 jax.random.uniform = orig_uniform
                 lc._unpatch_greedy(gp)
@@ -68,7 +69,7 @@ def run(chk, rng, quick):
                         obs, a, qv = calls[gi]
                         gi += 1
                         if a != a_env or qv[a] < qv.max() or not np.array_equal(np.asarray(obs).reshape(-1), np.asarray(e[1]).reshape(-1)):
-                            chk.fail(f"C13:train_{name}:greedy-action", "the action sent to the environment is not a maximiser of the current Q-values at the current observation",
+                            chk.fail(f"C13:train_{name}:greedy-action", "the action sent to the environment is not a maximiser of the online network's current Q-values at the current observation",
                                      {"case": case, "step": step, "q_values": qv.tolist(), "greedy_action": a, "env_action": a_env})
                             break
                         chk.count("greedy_steps")
